@@ -112,7 +112,8 @@ func (self *Parser) singletonIdent() (ast.SpannedIdent, *errors.Error) {
 
 	return ast.NewSpannedIdent(
 		fmt.Sprintf("$%s", identValue),
-		startLoc.Until(self.CurrentToken.Span.End, self.Filename),
+		// (the identifier has been consumed: it is the previous token)
+		startLoc.Until(self.PreviousToken.Span.End, self.Filename),
 	), nil
 }
 
